@@ -14,12 +14,12 @@ P = {
          'from source every run; correspondence np+torch exhaustive N<=2.',
          'Coq proof (induction over sites) + regenerated per-site tables + correspondence', '5/C01'),
  'C02': ('Theorems for all N: rotate = identity on commuting / i*P*G on anticommuting operands, conjugation identities G P G = +-P (the group-algebra content '
-         'of U^dagger P U), multiplicativity, inverse by -G, period 4, masked = lifted generator, outside untouched; formula regenerated from source.',
+         'of U^dagger P U), multiplicativity, inverse by -G, period 4, masked = lifted generator, outside untouched; and as matrices in the ket semantics: V^dagger P V = 2 rotate(P) with V = 1 + iG, V^dagger V = 2 (sequences: 2^K); formula regenerated from source.',
          'Coq proof + regenerated phase formula + correspondence (np, torch) with dense U^dagger P U oracle', '5/C02'),
  'C03': ('Theorems for all N and all valid maps: identity to identity, generators to the listed images, products to products with the exact phase (transform_hom), commutation/Hermiticity/'
-         'squares preserved, phases pulled out, masked map = embedded map, rotation map acts as the rotation. PARTIAL: existence of the implementing unitary is the cited textbook theorem; '
-         'proved is the centre-fixing automorphism property.',
-         'Coq proof (homomorphism lemma by induction over rows, only associativity and pairwise (anti)commutation) + correspondence with dense ordered-product oracle', '5/C03'),
+         'squares preserved, phases pulled out, masked map = embedded map, rotation map acts as the rotation; a single (scaled) unitary implements every valid map: constructive decomposition into pi/4 rotations, each a conjugation by 1+iG in the ket semantics '
+         '(V^dagger V = 2^K, V^dagger P V = 2^K transform(P)).',
+         'Coq proof (homomorphism lemma by induction over rows; decomposition of symplectic tables into rotations; matrix-level conjugation) + correspondence with dense ordered-product oracle', '5/C03'),
  'C04': ('Theorems for all N: compose acts as first-then-second, is associative and closed, identity neutral; the inverse exists for every valid map, is valid and two-sided; inverse of a '
          'composition; z2inv as implemented (partial-row Gauss-Jordan) is a two-sided GF(2) inverse and rejects only singular input.',
          'Coq proof (Gauss-Jordan invariants, symplectic right inverse, group axioms) + correspondence exhaustive on 24x24 one-qubit pairs and all 2x2/3x3 matrices', '5/C04'),
@@ -32,14 +32,14 @@ P = {
          'independence, sign uniqueness; the post-measurement stabilizer group is EXACTLY {b, b.(+-O) : b in the old group commuting with O} (both inclusions), unchanged in the determined case. PARTIAL: the step from the group to the matrix P rho P/Tr is compared densely, not formalised.',
          'Coq proof (scan characterisation + non-degeneracy via the inverse map) + correspondence with recovered coins and dense Born/projection oracle', '5/C06'),
  'C07': ('Theorems for all N: expect = +1 iff O in the stabilizer group, -1 iff -O is, 0 iff some stabilizer/standby row anticommutes, and no other value; lists entrywise; polynomial path = phase- and '
-         'coefficient-weighted sum; the value computed by the kernel IS Tr(rho O) (sum of diagonal ket amplitudes of the density polynomial times O) for every valid tableau. Overlaps and get_prob: invariant proved, values tied by correspondence to the dense traces (all readouts summed).',
+         'coefficient-weighted sum; the value computed by the kernel IS Tr(rho O) (sum of diagonal ket amplitudes of the density polynomial times O) for every valid tableau. Overlaps and get_prob: the sequential-projection kernel returns Tr(rho P_1...P_k) for commuting observables on a pure rho, and the overlap the code returns is Tr(rho sigma) (theorems); dense traces for all readouts compared by correspondence.',
          'Coq proof (group membership via spanning/non-degeneracy) + correspondence np+torch with dense Tr(rho O) oracle', '5/C07'),
  'C08': ('Theorems: z2rank as implemented is the dimension of the row space (basis existence + Steinitz), rank depends on the span only; mixed branch = |A|-L+rank(complement) for all N; pure branch = '
-         'same formula for ALL generating sets of ALL pure states, N<=3, by complete enumeration; empty/full region; generator independence. PARTIAL: entropy value of a stabilizer state is the cited spectral fact.',
-         'Coq proof + finite enumeration (vm_compute) + correspondence with dense von Neumann entropy oracle', '5/C08'),
+         'the same formula for EVERY N (rank-nullity, symplectic complements, maximal isotropy; also enumerated for N<=3); the partial trace of rho over the complement IS the density matrix of a valid stabilizer tableau of log2-rank entropy(A) (theorem in the ket semantics); empty/full region; generator independence. Outside Coq only: -Tr rho log2 rho = r for a flat spectrum on 2^r dimensions.',
+         'Coq proof (GF(2) linear algebra for the rank function as implemented; partial trace) + finite enumeration (vm_compute) + correspondence with dense von Neumann entropy oracle', '5/C08'),
  'C12': ('Theorems for all N: to_state = the map applied to |0..0> row by row with signs, both round trips, validity; stabilizer_state on an independent commuting signed list has rank N-L and exactly the '
-         'input as active rows in order, rejects anticommuting input; zero/one/mixed constructors; GHZ examples. Dense density matrices and to_qutip compared by correspondence.',
-         'Coq proof + correspondence (dense oracle, three input formats)', '5/C12'),
+         'input as active rows in order, rejects anticommuting input; zero/one/mixed constructors; GHZ for every N (accepted, pure, valid, rows = the documented list, correlations +1). Dense density matrices and to_qutip compared by correspondence.',
+         'Coq proof + correspondence (dense oracle, three input formats) + reused-object histories', '5/C12'),
  'C13': ('PARTIAL by design: proved that every formula/table re-extracted from torchclifford on each run equals its pyclifford twin; control flow of the vectorised kernels tied by the three-way '
          'correspondence numpy == torch == model over the shared surface (enumerated, unmatched names reported). Open port findings listed in known_findings.json.',
          'regenerated-formula equalities in Coq + three-way differential correspondence', '5/C13'),
